@@ -19,7 +19,20 @@ INTS = {"i8": ("signed char", 1, True), "u8": ("unsigned char", 1, False),
         "i64": ("long long", 8, True), "u64": ("unsigned long long", 8, False)}
 STRUCTS = {"sA": ["i8", "i32"], "sB": ["i64", "i64", "i64"], "sC": ["f32", "f32"], "sD": ["f64", "i8"],
            "sE": ["i16", "i16", "i16"], "sF": ["f64"], "sG": ["i32", "f64"], "sH": ["u8"],
-           "sI": ["i64", "f64"], "sJ": ["i32", "i32", "i32", "i32", "u16"], "sK": ["p_i32", "char", "bool"]}
+           "sI": ["i64", "f64"], "sJ": ["i32", "i32", "i32", "i32", "u16"], "sK": ["p_i32", "char", "bool"],
+           # fields that are arrays ("base[d1][d2]..."): libffi receives a flattened element list
+           "sL": ["f32[2][2]"], "sM": ["f64[2][1]"], "sN": ["i16[2][3]", "f32"], "sO": ["f32[2]"],
+           "sP": ["char[3]", "f64[1][2]"], "sQ": ["f64[2][2]"], "sR": ["i16[2][2]", "char[2][2]"],
+           "sS": ["f32[3]", "i32"], "sT": ["char[2][2][2]", "f32[1][2]"]}
+ARR_STRUCTS = ["sL", "sM", "sN", "sO", "sP", "sQ", "sR", "sS", "sT"]
+
+
+def split_arr(t):
+    """'f32[2][3]' -> ('f32', [2, 3]); plain types -> (t, [])"""
+    if "[" not in t:
+        return t, []
+    base, rest = t.split("[", 1)
+    return base, [int(x) for x in rest.rstrip("]").split("][")]
 UNSIGNED_OF = {"signed char": "unsigned char", "short": "unsigned short", "int": "unsigned int",
                "long": "unsigned long", "long long": "unsigned long long"}
 
@@ -41,6 +54,12 @@ def cname(t):
 
 
 def tla_type(t):
+    base, dims = split_arr(t)
+    if dims:
+        r = tla_type(base)
+        for n in reversed(dims):
+            r = {"k": "arr", "item": r, "len": n}
+        return r
     if t in INTS:
         return {"k": "int", "size": INTS[t][1], "signed": INTS[t][2]}
     if t in ("bool", "char", "void"):
@@ -73,8 +92,12 @@ def tla_type_of_ctype(ct):
     if k == "array":
         return {"k": "ptr", "item": tla_type_of_ctype(ct.item)}
     if k == "struct":
+        def field(ft):
+            if ft.kind == "array":
+                return {"k": "arr", "item": field(ft.item), "len": ft.length}
+            return tla_type_of_ctype(ft)
         return {"k": "struct", "tag": ct.cname.replace("struct ", ""),
-                "fields": [tla_type_of_ctype(f.type) for _n, f in ct.fields]}
+                "fields": [field(f.type) for _n, f in ct.fields]}
     return {"k": "unknown", "name": ct.cname}
 
 
@@ -260,7 +283,9 @@ def arg_types(sig):
 def struct_decls():
     out = []
     for s, fields in STRUCTS.items():
-        out.append("struct %s { %s };" % (s, " ".join("%s f%d;" % (cname(t), i + 1) for i, t in enumerate(fields))))
+        out.append("struct %s { %s };" % (s, " ".join(
+            "%s f%d%s;" % (cname(split_arr(t)[0]), i + 1, "".join("[%d]" % n for n in split_arr(t)[1]))
+            for i, t in enumerate(fields))))
     return "\n".join(out) + "\n"
 
 
@@ -401,6 +426,10 @@ class Builder:
     # ---- scalar values
     def item_ok(self, t):
         rng = self.rng
+        base, dims = split_arr(t)
+        if dims:
+            inner = base + "".join("[%d]" % n for n in dims[1:])
+            return [rng.choice(["list", "tuple"]), [self.item_ok(inner) for _ in range(dims[0])]]
         if t in INTS:
             return ["int", str(rand_in(rng, t))]
         if t == "bool":
@@ -680,6 +709,7 @@ class Builder:
 
 
 def _has_float(t):
+    t = split_arr(t)[0]
     if t.startswith("p_"):
         return _has_float(t[2:])
     if t in STRUCTS:
